@@ -219,31 +219,17 @@ func poolHistory(c *fw.Ctx, steps int) {
 			// safe mode: typed slices handed out (root and nested results alike) must survive too
 			if !opt.fast && hd.res != nil && strings.HasPrefix(got, "ok") {
 				if fd, err := hd.res.FieldData(tag); err == nil {
+					// the first typed slice accessor that fits the field's wire type
 					var tv interface{}
-					switch r.Intn(6) {
-					case 0:
-						if v, err := fd.Int64Values(); err == nil {
+					for _, try := range []func() (interface{}, error){
+						func() (interface{}, error) { return fd.Int64Values() },
+						func() (interface{}, error) { return fd.StringValues() },
+						func() (interface{}, error) { return fd.Fixed32Values() },
+						func() (interface{}, error) { return fd.Float64Values() },
+					} {
+						if v, err := try(); err == nil && reflect.ValueOf(v).Len() > 0 {
 							tv = v
-						}
-					case 1:
-						if v, err := fd.UInt32Values(); err == nil {
-							tv = v
-						}
-					case 2:
-						if v, err := fd.BoolValues(); err == nil {
-							tv = v
-						}
-					case 3:
-						if v, err := fd.StringValues(); err == nil {
-							tv = v
-						}
-					case 4:
-						if v, err := fd.Float64Values(); err == nil {
-							tv = v
-						}
-					default:
-						if v, err := fd.Fixed32Values(); err == nil {
-							tv = v
+							break
 						}
 					}
 					if tv != nil && reflect.ValueOf(tv).Len() > 0 {
